@@ -835,7 +835,7 @@ func sortsByField(fn *ssa.Function, field string) bool {
 				if !isB || bo.Op != token.LSS {
 					return
 				}
-				xo, yo := an.Origins(bo.X, an.FlowOpts{}), an.Origins(bo.Y, an.FlowOpts{})
+				xo, yo := noCells(an.Origins(bo.X, an.FlowOpts{})), noCells(an.Origins(bo.Y, an.FlowOpts{}))
 				if len(xo) == 1 && len(yo) == 1 && strings.HasSuffix(xo[0].Path, "[]."+field) && strings.HasSuffix(yo[0].Path, "[]."+field) {
 					ok = true
 				}
@@ -867,4 +867,15 @@ func metadataNilBypass(fn *ssa.Function, sortCall *ssa.Call) bool {
 		b = idom
 	}
 	return false
+}
+
+// noCells drops the origins that merely name the memory cell of a captured variable.
+func noCells(os []an.Origin) []an.Origin {
+	var out []an.Origin
+	for _, o := range os {
+		if o.Kind != "alloc" {
+			out = append(out, o)
+		}
+	}
+	return out
 }
